@@ -24,7 +24,7 @@ import time
 import numpy as np
 
 import vf.repoenv  # noqa: F401
-from vf.common import HELD, INCONCLUSIVE, PY, VIOLATED, Run, case_hash, main_wrapper, run_pool, seed
+from vf.common import wall_budget, HELD, INCONCLUSIVE, PY, VIOLATED, Run, case_hash, main_wrapper, run_pool, seed
 
 PID = "C20"
 
@@ -433,7 +433,7 @@ def main(tier, replay=None):
     cases = cases_for(tier, s)
     if replay:
         cases = [json.load(open(replay))["replay"]["case"]]
-    results = run_pool("c20", cases, per_case_timeout=600, chunk=1, deadline=time.time() + (500 if tier == "quick" else 3000))
+    results = run_pool("c20", cases, per_case_timeout=600, chunk=1, deadline=time.time() + wall_budget(tier, 500, 3000))
     for r in results:
         run.add(r)
     run.require("standalone_compiles", 15 if not replay else 0)
